@@ -84,6 +84,41 @@ Proof.
     destruct (ib0 || ic0), (ib1 || ic1); vm_compute; reflexivity.
 Qed.
 
+(* ------------------------------------------------------------------ Ternary.il_exec, MemLoad.il_exec *)
+Definition G3 (a b c : pure) : denv := [("$0", BPure a); ("$1", BPure b); ("$2", BPure c)].
+Theorem ternary_text_ok : forall c a b ib0 ic0 ib1 ic1 op tself t0 t1,
+  match ternary_text op tself t0 t1 ib0 ic0 ib1 ic1 with Some s => elab (G3 c a b) noparam s | None => None end
+  = Some (PIte (cond_wrap (ib0 || ic0) c) a b).
+Proof. intros. unfold ternary_text, cond_wrap. destruct (ib0 || ic0); vm_compute; reflexivity. Qed.
+Theorem memload_text_ok : forall a b tself op t0 t1 ib0 ic0 ib1 ic1,
+  elab_text a b (memload_text op tself t0 t1 ib0 ic0 ib1 ic1) = Some (PLoad (vt_w tself) a).
+Proof. intros. unfold memload_text, elab_text. destruct (vt_w tself); vm_compute; reflexivity. Qed.
+
+(* ------------------------------------------------------------------ the Effect classes' il_write *)
+(* (these are the shapes model/Lower.v builds for if / for / JUMP / mem_store / nop / empty statements: EBranch (cond_of c) t f,
+   ERepeat (cond_of c) body, ESeq (ESetL "jump_flag" true) (ESetL "jump_target" t), EStore a v, ENop, EEmpty; cond_of = cond_wrap (is_boolop c)) *)
+Definition elab_eff_text (G : denv) (t : option sexp) : option effect :=
+  match t with Some s => elab_eff G noparam s | None => None end.
+Theorem branch_text_ok : forall c t f ib0 ic0 ib1 ic1 op tself t0 t1,
+  elab_eff_text [("$0", BPure c); ("$1", BEff t); ("$2", BEff f)] (branch_text op tself t0 t1 ib0 ic0 ib1 ic1)
+  = Some (EBranch (cond_wrap (ib0 || ic0) c) t f).
+Proof. intros. unfold branch_text, cond_wrap, elab_eff_text. destruct (ib0 || ic0); vm_compute; reflexivity. Qed.
+Theorem forloop_text_ok : forall c body ib0 ic0 ib1 ic1 op tself t0 t1,
+  elab_eff_text [("$0", BPure c); ("$1", BEff body)] (forloop_text op tself t0 t1 ib0 ic0 ib1 ic1)
+  = Some (ERepeat (cond_wrap (ib0 || ic0) c) body).
+Proof. intros. unfold forloop_text, cond_wrap, elab_eff_text. destruct (ib0 || ic0); vm_compute; reflexivity. Qed.
+Theorem jump_text_ok : forall t op tself t0 t1 ib0 ic0 ib1 ic1,
+  elab_eff_text [("$0", BPure t)] (jump_text op tself t0 t1 ib0 ic0 ib1 ic1)
+  = Some (ESeq (ESetL "jump_flag" (PBool true)) (ESetL "jump_target" t)).
+Proof. intros. vm_compute. reflexivity. Qed.
+Theorem memstore_text_ok : forall a v op tself t0 t1 ib0 ic0 ib1 ic1,
+  elab_eff_text [("$0", BPure a); ("$1", BPure v)] (memstore_text op tself t0 t1 ib0 ic0 ib1 ic1) = Some (EStore a v).
+Proof. intros. vm_compute. reflexivity. Qed.
+Theorem nop_empty_text_ok : forall op tself t0 t1 ib0 ic0 ib1 ic1,
+  elab_eff_text [] (nop_text op tself t0 t1 ib0 ic0 ib1 ic1) = Some ENop /\
+  elab_eff_text [] (empty_text op tself t0 t1 ib0 ic0 ib1 ic1) = Some EEmpty.
+Proof. intros. split; vm_compute; reflexivity. Qed.
+
 (* ------------------------------------------------------------------ the value-type helpers, on their whole domains *)
 Definition otype_eqb (a b : option (bool * N)) : bool :=
   match a, b with
